@@ -378,14 +378,21 @@ pub fn run_case(rt: &tokio::runtime::Runtime, dir: &Path, case: &Value, n: usize
 	let (write_ok, write_err) = produce(rt, case, &src, &path);
 	phase("read");
 	let mut ev = json!({"ev":"case","id":n,"origin":case["origin"].as_str().unwrap_or("writer"),"fmt":src.fmt,"tf":src.tf,"tc":src.tc,
-		"tiles":src.tiles_json(),"write_ok":write_ok as u8,"write_err":write_err,"choices":case.get("choices").cloned().unwrap_or(json!({}))});
+		"tiles":src.tiles_json(),"write_ok":write_ok as u8,"write_err":write_err,"choices":case.get("choices").cloned().unwrap_or(json!({})),
+		"via":case.get("via").cloned().unwrap_or(json!("file"))});
 	let want_decode = only == "C01" || only == "all";
 	ev["decoded"] = if write_ok && want_decode { decode_file(&src, &path) } else { json!({"skip":1,"ok":0,"tiles":[],"tf":"","tc":"","layout":{}}) };
 	let mut opened = json!({"ok":0,"tf":"","tc":"","cov":[],"err":""});
 	let mut walk = 0;
 	let (mut lookups, mut absent, mut streams, mut expect) = (json!([]), json!([]), json!([]), json!([]));
 	if write_ok {
-		let p = path.to_str().unwrap().to_string();
+		// "via": "http" -- the same file through the HTTP data reader (range requests against a local server)
+		let via_http = case.get("via").and_then(|v| v.as_str()) == Some("http");
+		let _server = if via_http { Some(crate::httpd::RangeServer::start(path.parent().unwrap())) } else { None };
+		let p = match &_server {
+			Some(sv) => format!("http://127.0.0.1:{}/{}", sv.port, path.file_name().unwrap().to_str().unwrap()),
+			None => path.to_str().unwrap().to_string(),
+		};
 		match catch(|| rt.block_on(get_reader(&p))) {
 			Ok(Ok(reader)) => {
 				let many = only == "C02" || only == "all";
